@@ -420,8 +420,13 @@ fn run_one(case: &Case, want_desc: bool, st: &mut Stats, dt: &mut DrawTarget) ->
 }
 
 fn with_target<R>(w: i32, h: i32, f: impl FnOnce(&mut DrawTarget) -> R) -> R {
-    // a fresh target per case keeps every case replayable on its own (reuse is C10's subject)
-    let mut dt = DrawTarget::new(w, h);
+    // a fresh target per case keeps every case replayable on its own (reuse is C10's subject);
+    // every constructor must give the same rasteriser
+    let mut dt = match (w * 31 + h * 17) % 3 {
+        0 => DrawTarget::new(w, h),
+        1 => DrawTarget::from_vec(w, h, Vec::new()),
+        _ => DrawTarget::from_backing(w, h, vec![0u32; (w * h) as usize]),
+    };
     f(&mut dt)
 }
 
@@ -485,6 +490,37 @@ pub fn run(ctx: &Ctx) -> Outcome {
             with_target(2, 2, |dt| run_one(&c, want, st, dt))
         });
     }
+    // very many subpaths on top of each other: winding numbers in the hundreds
+    run_cases(ctx, &mut out, SubSpec { name: "many_overlapping_subpaths", cases: ctx.n(40, 2_000), exhaustive: false, max_secs: 120. }, |i, want, st| {
+        let mut rng = ctx.rng("many_overlapping_subpaths", i);
+        let w = rng.int(4, 16) as i32;
+        let h = rng.int(4, 16) as i32;
+        let n = *rng.pick(&[100usize, 127, 128, 129, 200, 255, 256, 257, 300]);
+        let same_dir = rng.chance(0.7);
+        let mut ops = Vec::new();
+        for k in 0..n {
+            let inset = if rng.chance(0.5) { 0 } else { (k % 5) as i64 };
+            let (x0, y0, x1, y1) = (2 + inset, 3 + inset, 4 * w as i64 - 3 - inset, 4 * h as i64 - 2 - inset);
+            let fwd = same_dir || k % 2 == 0;
+            ops.push(QOp::Move(x0, y0));
+            if fwd {
+                ops.push(QOp::Line(x1, y0));
+                ops.push(QOp::Line(x1, y1));
+                ops.push(QOp::Line(x0, y1));
+            } else {
+                ops.push(QOp::Line(x0, y1));
+                ops.push(QOp::Line(x1, y1));
+                ops.push(QOp::Line(x1, y0));
+            }
+            ops.push(QOp::Close);
+        }
+        let c = Case { w, h, ops, evenodd: rng.chance(0.4), aa: rng.chance(0.7) };
+        let mut co = with_target(w, h, |dt| run_one(&c, false, st, dt));
+        if want || !co.violations.is_empty() {
+            co.desc = Some(J::s(&format!("{} rectangles ({}) on {}x{}, {}", n, if same_dir { "same direction" } else { "alternating directions" }, w, h, if c.evenodd { "EvenOdd" } else { "NonZero" })));
+        }
+        co
+    });
     if out.stats.get("pixels_partial_coverage") == 0 && ctx.replay.is_none() {
         out.inconclusive("no partially covered pixel was asserted".to_string());
     }
